@@ -904,7 +904,30 @@ func runFullWorld(run *sim.Run, wi int, nBlocks int) {
 		consIdx[string(sim.ConsAddrOf(a))] = v
 	}
 
+	// a validator that is jailed, leaves the bonded set (its stake moves to the not-bonded pool) and is then
+	// slashed for an older double-sign: the slash runs in the same begin block as the allocation and must not
+	// change the total supply either (the chain redirects burnt stake to the community pool)
+	jailAt, evidenceAt, victim := -1, -1, 0
+	var infrHeight int64
+	var infrTime time.Time
+	var infrPower int64
+	if nVals >= 2 && rng.Chance(1, 2) {
+		jailAt = rng.Range(3, nBlocks/2)
+		evidenceAt = jailAt + rng.Range(2, 6)
+		victim = rng.Intn(nVals)
+	}
 	for block = 0; block < nBlocks && !dead; block++ {
+		skipRef := false
+		if block == jailAt {
+			cons := sdk.ConsAddress(sim.ConsAddrOf(w.Vals[victim]))
+			infrHeight, infrTime, infrPower = w.Height, w.Time, toks[victim]/1_000_000
+			if err := app.StakingKeeper.Jail(w.Ctx(), cons); err != nil {
+				jailAt, evidenceAt = -1, -1
+			} else {
+				skipRef = true // the end block moves the stake between the staking pools
+				run.Count("full:validator-jailed-between-blocks", 1)
+			}
+		}
 		// --- perturbations between blocks
 		if rng.Chance(1, 6) {
 			opct = genPct(rng)
@@ -977,6 +1000,13 @@ func runFullWorld(run *sim.Run, wi int, nBlocks int) {
 		// --- one observed block
 		s0 := takeSnap(app, w.Ctx())
 		req := w.BlockReq(nil, time.Duration(rng.Range(1, 6))*time.Second)
+		if block == evidenceAt {
+			if v, err := app.StakingKeeper.GetValidatorByConsAddr(w.Ctx(), sdk.ConsAddress(sim.ConsAddrOf(w.Vals[victim]))); err == nil && !v.IsBonded() {
+				req.Misbehavior = []abci.Misbehavior{{Type: abci.MisbehaviorType_DUPLICATE_VOTE, Height: infrHeight, Time: infrTime, TotalVotingPower: infrPower,
+					Validator: abci.Validator{Address: sim.ConsAddrOf(w.Vals[victim]), Power: infrPower}}}
+				skipRef = true // slashed stake lands in the community pool: only the model-free conservation monitors judge this block
+			}
+		}
 		resp, err := w.Exec(req)
 		if err != nil {
 			rep("block-error", fmt.Sprintf("empty block failed with oracle pct %d, tss pct %d, tax %s: %v", opct, tpct, tax, err))
@@ -993,6 +1023,20 @@ func runFullWorld(run *sim.Run, wi int, nBlocks int) {
 			mintedC["uband"] = minted
 		}
 		conservation("block", s0, s1, mintedC, rep)
+		if len(req.Misbehavior) > 0 {
+			for _, ev := range resp.Events {
+				if ev.Type == "slash" {
+					run.Count("full:not-bonded-stake-slashed-in-begin-block", 1)
+					break
+				}
+			}
+		}
+		if skipRef {
+			run.Eval(1)
+			run.Count("full:blocks", 1)
+			run.Count("full:blocks-judged-by-conservation-only", 1)
+			continue
+		}
 
 		// --- reference for the whole begin-block chain
 		pool := s0.balOf(feeAddr).Add(mintedC)
@@ -1222,7 +1266,7 @@ func main() {
 		"iso:tss-members-paid", "iso:tss-dust-to-community>0", "iso:member-active-without-de-excluded", "iso:member-active-consumed-de-excluded",
 		"iso:member-inactive-with-de-excluded", "iso:inactive-validator-got-zero", "iso:non-current-group-present", "iso:jailed-but-oracle-active-validator",
 		"full:blocks", "full:oracle-share>0", "full:tss-members-paid", "full:order-sensitive-block(oracle>0,tss>0)", "full:absent-voter",
-		"full:inactive-validator-among-voters", "full:pool-multi-denom", "full:invariant-sweeps",
+		"full:inactive-validator-among-voters", "full:pool-multi-denom", "full:invariant-sweeps", "full:not-bonded-stake-slashed-in-begin-block",
 	} {
 		run.Require(c, 1)
 	}
